@@ -819,6 +819,9 @@ def prop_names(ctx: Ctx, I: Interp) -> None:
     fn = prog.function(JSX, q)
     where = f"{JSX}:{q}"
     ps = [a.arg for a in fn.args.posonlyargs + fn.args.args]
+    many = len(ps) == 1 and fn.args.vararg is not None and not fn.args.kwarg      # _update(self, *mappings): one mapping after the other
+    if many:
+        ps = ps + [fn.args.vararg.arg]
     ctx.require(len(ps) == 2, f"{q} signature changed")
     from ..loopbuilt import iter_base
     n = 0
@@ -830,7 +833,9 @@ def prop_names(ctx: Ctx, I: Interp) -> None:
 
         def mk(run: Any):
             s_ = SObj("self", {"JSXATTRDICT"})
-            m_ = SObj("m", {"DICT"})
+            m_ = SObj("m", {"DICT"}) if not many else SObj("mappings", {"TUPLE"})
+            if many:
+                m_.meta["elem_kinds"] = frozenset({"DICT"})
             run.__dict__["o"] = (s_, m_)
             return ({ps[0]: s_, ps[1]: m_}, s_)
 
@@ -840,8 +845,12 @@ def prop_names(ctx: Ctx, I: Interp) -> None:
                 continue
             any_rec = True
             s_, m_ = l.run.__dict__["o"]
-            if iter_base(rec.iter_value) is not m_:
+            base_ = iter_base(rec.iter_value)
+            one_of_many = many and isinstance(base_, SObj) and base_.elem_of is not None and base_.elem_of[0] is m_
+            if base_ is not m_ and not one_of_many:
                 continue
+            if many and base_ is m_:
+                continue        # the outer loop over the mappings themselves
             el = rec.__dict__.get("element")
             if not (isinstance(el, SList) and len(el.items) == 2):
                 continue
